@@ -40,7 +40,7 @@ RULE = ('Each case = one generated dataset directory (configuration vector over 
         'first / a middle / the last position). non-trivial = distinct configuration vectors with >= 2 '
         'optional files absent, or ALF names, or (n,1) vectors.' % (len(AXES), ', '.join(sorted(AXES))))
 EXHAUSTIVE = {'quick': False, 'thorough': False}
-FLOORS = {'quick': {'evaluations': 500, 'distinct_nontrivial': 200, 'monitors': {'M1.checked': 200}},
+FLOORS = {'quick': {'evaluations': 1500, 'distinct_nontrivial': 800, 'monitors': {'M1.checked': 2000}},
           'thorough': {'evaluations': 20000, 'distinct_nontrivial': 5000, 'monitors': {'M1.checked': 5000}}}
 ASSUMPTIONS = ['directories never hold both the KS and the ALF name of one array; vectors have >= 2 '
                'entries and no array dimension is 1 (squeeze() is documented as degenerate there); NaN '
@@ -60,7 +60,7 @@ def pair_configs():
 
 
 def plan(tier, seed):
-    nrand = 300 if tier == 'quick' else 30000
+    nrand = 1500 if tier == 'quick' else 30000
     return [{'shard': i, 'n': NSHARDS, 'seed': seed, 'nrand': nrand, 'tier': tier} for i in range(NSHARDS)]
 
 
